@@ -83,7 +83,7 @@ PROPS = {
         runs={"quick": [["search-C03", "--scenarios", "150"]], "thorough": [["search-C03", "--scenarios", "1500"]]},
         trusted=SEARCH_TRUST,
         statement="bounded max-heap scan = K smallest / all within radius, any visiting order; on a collection representing store D (any history): result = min(K,m) nearest accepted live documents of D with true distances",
-        partial="proved: exact_knn / exact_radius for every candidate list and visiting order; exact_search_on_collection / exact_radius_on_collection / exact_search_after_any_history: on every collection state reached by any history of document operations, with the index map visited in any order, any distance function of the stored codes and any filter, the result is the min(K,m) nearest accepted live documents of the abstract store, sorted, duplicate-free, each with its true distance and current metadata passing the filter. The float distance itself is C06; PercentSearched = 100 is checked on the implementation only (direct oracle)",
+        partial="proved: exact_knn / exact_radius for every candidate list and visiting order; exact_search_on_collection / exact_radius_on_collection / exact_search_after_any_history: on every collection state reached by any history of document operations, with the index map visited in any order, any distance function of the stored codes and any filter, the result is the min(K,m) nearest accepted live documents of the abstract store, sorted, duplicate-free, each with its true distance and current metadata passing the filter. exact_scan_visits_every_document: the exact scan considers exactly GetDocumentCount candidates (so pointsSearched/numRecords = 1). The float distance itself is C06; that the float division gives exactly 100 is checked on the implementation (direct oracle)",
     ),
     "C16": dict(
         modules=["Syzgy.Props.C16"], ties=["Search"],
